@@ -100,9 +100,9 @@ def Obj.copyAssign : Obj → Obj → M Obj
   | _, _ => fail (.bad "assignment between different classes")
 
 /-- `dst = std::move(src)` for two different objects: (dst, src) -/
-def Obj.moveAssign : Obj → Obj → M (Obj × Obj)
+def Obj.moveAssign (kllResetsSource : Bool) : Obj → Obj → M (Obj × Obj)
   | .table t, .table o => let r := Theta.moveAssign t o; pure (.table r.1, .table r.2)
-  | .kll t, .kll o => do let r ← Kll.moveAssign t o; pure (.kll r.1, .kll r.2)
+  | .kll t, .kll o => do let r ← Kll.moveAssign kllResetsSource t o; pure (.kll r.1, .kll r.2)
   | .fi t, .fi o => let r := Fi.moveAssign t.map o.map; pure (.fi { o with map := r.1 }, .fi { o with map := r.2 })
   | _, _ => fail (.bad "assignment between different classes")
 
@@ -163,7 +163,7 @@ def step (C : Cfg) (w : World) : Op → Except Err World
       let (o, h) ← runM w d.obj.selfMoveAssign
       okW w h (World.put w.objs { d with obj := o })
     else
-      let (r, h) ← runM w (d.obj.moveAssign s.obj)
+      let (r, h) ← runM w (d.obj.moveAssign C.kll.moveAssignResetsSource s.obj)
       okW w h (World.put (World.put w.objs { s with usable := false, obj := r.2 }) { d with usable := true, obj := r.1 })
   | .merge dst src byMove coins => do
     let d ← getUsable w dst
